@@ -94,7 +94,7 @@ func main() {
 			st := rules.SelfTest(id, *dir, *verif)
 			if ms, ok := st.Info["mutants"].([]map[string]any); ok {
 				for _, m := range ms {
-					fmt.Printf("%s %-60v %v %v\n", id, m["mutant"], m["result"], m["at"])
+					fmt.Printf("%s %-60v %v %v %v\n", id, m["mutant"], m["result"], m["at"], m["got"])
 				}
 			}
 			if st.Broken != "" {
